@@ -35,11 +35,12 @@ pub fn gen_case(t: &mut Tape, cfg: GenCfg) -> Case {
     let g = Gen::new(t, cfg);
     let (db, prog, frame, touched) = g.gen_prog();
     let names = frame.cols.iter().map(|c| c.name.clone()).collect();
+    let flags: Vec<String> = touched.iter().map(|s| s.to_string()).chain(prog.has_window().then(|| "uses_window".to_string())).collect();
     Case {
         db,
         prog,
         target,
-        flags: touched.iter().map(|s| s.to_string()).collect(),
+        flags,
         names,
     }
 }
@@ -340,6 +341,20 @@ pub fn attribute_with(flags: &[String], known: &Known, failure: &str) -> Option<
         if *h == "open_take" && !(failure.contains("OFFSET") || failure.contains("no such column")) {
             // C07-offset-without-limit / C07-noop-take-keeps-sort are SQL errors; wrong rows of an
             // open-ended take are not covered by them
+            continue;
+        }
+        if *h == "sorted_let" && flags.iter().any(|f| f == h) {
+            // C07-sorted-cte-order-by-scope is an SQL error (ORDER BY naming a relation that only
+            // exists inside the CTE); C06-let-sort-not-applied-to-windows needs a window function;
+            // other wrong rows / wrong order after a sorted let-table are neither
+            let sql_scope = failure.contains("no such column") || failure.contains("ambiguous column");
+            let window = flags.iter().any(|f| f == "uses_window");
+            if sql_scope && known.is_open("C07-sorted-cte-order-by-scope") {
+                return Some(("C07-sorted-cte-order-by-scope".into(), "case uses hazard `sorted_let`".into()));
+            }
+            if window && known.is_open("C06-let-sort-not-applied-to-windows") {
+                return Some(("C06-let-sort-not-applied-to-windows".into(), "case uses hazard `sorted_let` and a window function".into()));
+            }
             continue;
         }
         if *h == "wild_dup_join" && failure == "arity" {
